@@ -252,8 +252,10 @@ public:
 
   template <typename... Args>
   void construct(Args&&... args) {
+    // not std::forward: an rvalue argument must not be moved from by the
+    // first element and then reused for the others
     for (T *ii = m_data, *ei = m_data + m_size; ii != ei; ++ii)
-      new (ii) T(std::forward<Args>(args)...);
+      new (ii) T(args...);
   }
 
   template <typename... Args>
